@@ -100,6 +100,7 @@ func Finish(sp *Spec, outs []Outcome, t0 time.Time, loadS float64) int {
 	var machinery []string
 	var violations []string
 	nObl, nDis, nInc, nQueries, nReach, nUnreach := 0, 0, 0, 0, 0, 0
+	nStretched := 0
 	solverS := 0.0
 	funcs := map[string]bool{}
 	natives := map[string]bool{}
@@ -119,6 +120,7 @@ func Finish(sp *Spec, outs []Outcome, t0 time.Time, loadS float64) int {
 			machinery = append(machinery, fmt.Sprintf("%s: %s", o.Config.Name, o.Err))
 		}
 		nQueries += o.Queries
+		nStretched += o.Stretched
 		solverS += o.SolverS
 		if o.Abstracted {
 			abstracted++
@@ -272,6 +274,8 @@ func Finish(sp *Spec, outs []Outcome, t0 time.Time, loadS float64) int {
 		"discharged":                   nDis,
 		"inconclusive":                 nInc,
 		"queries":                      nQueries,
+		"timeouts_are_cpu_time":        "per-query timeouts and per-configuration budgets are budgets of CPU time (solver process, interpreter thread); a query that hits its wall-clock timeout with less CPU than its budget is asked again with a stretched timeout",
+		"queries_asked_again_starved":  nStretched,
 		"solver_s":                     round3(solverS),
 		"load_s":                       round3(loadS),
 		"vacuity_witnesses":            nReach,
